@@ -138,7 +138,10 @@ fn main() {
                                 "silent" => {
                                     drop(p);
                                     silent_hit.store(true, std::sync::atomic::Ordering::SeqCst);
-                                    let _ = rel_rx.lock().unwrap().recv_timeout(std::time::Duration::from_secs(6));
+                                    // block_in_place: the worker's other tasks (the node under test shares this runtime) move to another thread first
+                                    tokio::task::block_in_place(|| {
+                                        let _ = rel_rx.lock().unwrap().recv_timeout(std::time::Duration::from_secs(6));
+                                    });
                                     None
                                 }
                                 _ => None,
